@@ -126,7 +126,7 @@ NoDimOps == ElemOps \cup ToBoolOps \cup ToFloatOps \cup RenameOps \cup ElemGridO
             \cup AddOps \cup DropGridOps \cup TopoOps \cup EdgeOps \cup RemapOps \cup DualOps
             \cup SubsetOps \cup FreeOps \cup CopyOps \cup (IF Broken THEN BrokenOps ELSE {})
 DimOps   == ElemDimOps \cup DropOps \cup ResizeOps
-AllOps   == NoDimOps \cup DimOps
+ArrOps   == NoDimOps \cup DimOps
 \* operations tried on every non-grid dimension (the others take the first one)
 EveryDimOps == {"isel_kw", "mean", "cumsum", "isel_slice_kw", "squeeze"}
 \* the grid handle may differ from the source's only for these
@@ -136,14 +136,14 @@ Op(n, d) == [op |-> n, d |-> d]
 NoOp == Op("start", "-")
 
 \* is the effect left free by the property (refusal or any consistent result)?
-IsFree(o, a) == o.op \in FreeOps \/ (o.op \in LastAxisOps /\ ~GridLast(a))
+IsFreeA(o, a) == o.op \in FreeOps \/ (o.op \in LastAxisOps /\ ~GridLast(a))
 
 (* ---- preconditions ----------------------------------------------------- *)
 RemapKind(n) == CASE n \in {"remap_nn_face", "remap_idw_face"} -> "n_face"
                   [] n \in {"remap_nn_node", "remap_idw_node"} -> "n_node"
                   [] OTHER -> "n_edge"
 
-Pre(o, a, G) ==
+PreA(o, a, G) ==
   LET n == o.op
       hasd == o.d # "-" /\ HasKind(a, o.d)
       D == a.dims[PosOf(a, o.d)]
@@ -180,7 +180,7 @@ ReplaceKind(a, k, h) == [a EXCEPT !.dims[GP(a)] = Dim(k, h, "none"), !.grid = h,
 NoLabels(a) == [a EXCEPT !.dims = [i \in 1..Len(a.dims) |-> [a.dims[i] EXCEPT !.idx = "none"]]]
 Derived(G, kind, of, closed) == Append(G, [kind |-> kind, of |-> of, closed |-> closed])
 
-Eff(o, a, G) ==
+EffA(o, a, G) ==
   LET n == o.op
       i == IF o.d = "-" THEN 0 ELSE PosOf(a, o.d)
       D == a.dims[i]
@@ -230,11 +230,45 @@ Eff(o, a, G) ==
     \* a second one: reverses the data along the grid dimension, keeps the grid
     [] n = "broken_reverse_grid" -> R([a EXCEPT !.al = FALSE], G)
 
+(* ---- the same operations THROUGH A UxDataset ----------------------------- *)
+(* ds = x.to_dataset(name="v"); the dataset-level operation; the variable    *)
+(* taken out again (ds[...]).  Each has the effect on dims / grid of the     *)
+(* array-level operation it is mapped to; the name is the variable's.        *)
+DsBase == [ ds_getitem |-> "compute", ds_attr |-> "compute", ds_data_vars |-> "compute",
+            ds_assign |-> "rename", ds_rename_var |-> "rename", ds_setitem |-> "rename",
+            ds_add_ds |-> "add_self", ds_mul_scalar |-> "mul_scalar", ds_neg |-> "neg", ds_np_sin |-> "np_sin",
+            ds_where |-> "where_mask", ds_fillna |-> "fillna", ds_astype |-> "astype", ds_map |-> "pipe",
+            ds_copy_shallow |-> "copy_shallow", ds_to_array |-> "compute", ds_cumsum |-> "cumsum",
+            ds_isel_kw |-> "isel_kw", ds_isel_dict |-> "isel_dict", ds_sel |-> "sel_kw", ds_mean |-> "mean",
+            ds_squeeze |-> "squeeze", ds_isel_slice |-> "isel_slice_kw", ds_diff |-> "diff",
+            ds_concat |-> "concat_self", ds_head |-> "head", ds_expand_dims_run |-> "expand_dims_run",
+            ds_transpose_rev |-> "transpose_rev", ds_mean_grid |-> "mean_grid", ds_copy_deep |-> "copy_deep",
+            ds_get_dual |-> "get_dual", ds_remap_nn_face |-> "remap_nn_face",
+            \* dataset-level indexing on the grid dimension: left free (refusal or any consistent result)
+            ds_isel_grid_kw |-> "isel_grid_dict", ds_isel_grid_step |-> "isel_grid_step_dict",
+            ds_head_grid |-> "head_grid" ]
+DsOps  == DOMAIN DsBase
+B(n)   == IF n \in DsOps THEN DsBase[n] ELSE n
+BO(o)  == Op(B(o.op), o.d)
+AllOps == ArrOps \cup DsOps
+DsName(n, nm) == CASE n \in {"ds_assign", "ds_rename_var", "ds_setitem"} -> "w"
+                   [] n = "ds_to_array" -> "none"
+                   [] B(n) \in OwnOps -> nm
+                   [] OTHER -> "v"
+Pre(o, a, G)  == PreA(BO(o), a, G)
+IsFree(o, a)  == IsFreeA(BO(o), a)
+Eff(o, a, G)  == IF o.op \in DsOps
+                 THEN LET r == EffA(BO(o), a, G) IN R([r.a EXCEPT !.name = DsName(o.op, @)], r.G)
+                 ELSE EffA(o, a, G)
+
 (* ---- which operations are tried in a state ------------------------------ *)
+NoDimAll    == NoDimOps \cup { n \in DsOps : DsBase[n] \in NoDimOps }
+DimAll      == DimOps \cup { n \in DsOps : DsBase[n] \in DimOps }
+EveryDimAll == EveryDimOps \cup { n \in DsOps : DsBase[n] \in EveryDimOps }
 Cands(a) ==
-  { Op(n, "-") : n \in NoDimOps }
-  \cup { Op(n, a.dims[i].k) : n \in DimOps \cap EveryDimOps, i \in LeadIdx(a) }
-  \cup (IF LeadIdx(a) = {} THEN {} ELSE { Op(n, a.dims[FirstLead(a)].k) : n \in DimOps \ EveryDimOps })
+  { Op(n, "-") : n \in NoDimAll }
+  \cup { Op(n, a.dims[i].k) : n \in DimAll \cap EveryDimAll, i \in LeadIdx(a) }
+  \cup (IF LeadIdx(a) = {} THEN {} ELSE { Op(n, a.dims[FirstLead(a)].k) : n \in DimAll \ EveryDimAll })
 Enabled(a, G) == { o \in Cands(a) : Pre(o, a, G) }
 
 (* ---- the machine -------------------------------------------------------- *)
@@ -265,9 +299,10 @@ Subset       == \E o \in Cands(arr) : o.op \in SubsetOps /\ Do(o)
 IndexGridDim == \E o \in Cands(arr) : o.op \in FreeOps /\ Do(o)
 Copy         == \E o \in Cands(arr) : o.op \in CopyOps /\ Do(o)
 BrokenOp     == \E o \in Cands(arr) : o.op \in BrokenOps /\ Do(o)
+ThroughDataset == \E o \in Cands(arr) : o.op \in DsOps /\ Do(o)
 
 Next == \/ Elementwise \/ Permute \/ DropLead \/ ResizeLead \/ AddLead \/ DropGridDim
-        \/ ReplaceOnGrid \/ Remap \/ Dual \/ Subset \/ IndexGridDim \/ Copy \/ BrokenOp
+        \/ ReplaceOnGrid \/ Remap \/ Dual \/ Subset \/ IndexGridDim \/ Copy \/ BrokenOp \/ ThroughDataset
 
 Spec == Init /\ [][Next]_vars
 
@@ -287,9 +322,9 @@ IsUx               == IsUxArr(arr)
 DataFollowsGrid    == arr.al
 GridDimsConsistent == ConsistentArr(arr)
 \* the attached grid is the source's unless the operation says otherwise
-SameGrid == [][ arr'.grid = arr.grid \/ last'.op \in GridChanging ]_vars
+SameGrid == [][ arr'.grid = arr.grid \/ B(last'.op) \in GridChanging ]_vars
 \* a deep copy is attached to a NEW handle that is a copy of the source's grid
-DeepCopyFresh == [][ last'.op \in CopyOps =>
+DeepCopyFresh == [][ B(last'.op) \in CopyOps =>
                        /\ arr'.grid = Len(grids) + 1 /\ arr'.grid # arr.grid
                        /\ grids'[arr'.grid].kind = "copy" /\ grids'[arr'.grid].of = arr.grid ]_vars
 \* grids are never forgotten or rewritten
@@ -301,6 +336,6 @@ Succ(a, G) == LET E == Enabled(a, G)
                   Rs == { Eff(o, a, G) : o \in E }
               IN { <<r, { <<o.op, o.d, IsFree(o, a)>> : o \in { x \in E : Eff(x, a, G) = r } }>> : r \in Rs }
 Emit == /\ (EmitSucc /\ depth < MaxDepth) => PrintT(ToString(<<"X", depth, arr, grids, Succ(arr, grids)>>))
-        /\ (EmitSucc /\ depth = 0) => PrintT(ToString(<<"OPS", AllOps>>))
+        /\ (EmitSucc /\ depth = 0) => PrintT(ToString(<<"OPS", AllOps, [n \in AllOps |-> B(n)]>>))
 GenView == <<arr, grids, depth>>
 =============================================================================
